@@ -160,9 +160,40 @@ def realtime_plan(prop, pools, floors):
     return plan
 
 
+# ------------------------------------------------------------------------------------------- NYCT trips
+def c16_plan(run, replay=None):
+    q = run.tier == "quick"
+    run.build_harness()
+    if replay:
+        replay_cases(run, replay, "cases.ndjson")
+        origins = "none"
+    else:
+        run.tlc("NyctTripsMC", "C16_all.cfg", "design", workers=8, cases_out="cases.ndjson", timeout=1500)
+        # plain messages (no NYCT data): transparency of the extension
+        run.tlc("RealtimeMC", "RT_random.cfg", "design", workers=1, simulate=500 if q else 10000, depth=12, seed=run.seed,
+                cases_out="cases.ndjson")
+        run.tlc("RealtimeMC", "RT_fields.cfg", "design", workers=8, cases_out="cases.ndjson")
+        origins = "boundaries" if q else "all"
+    s = run.harness("nycttrips", ["-in", "cases.ndjson", "-out", "obs.ndjson", "-origins", origins, "-seed", run.seed], timeout=3000)
+    run.load_inputs("obs.ndjson.inputs")
+    run.validate_trace("NyctTripsObs", "obs.ndjson", s["cases"], timeout=3000)
+    only(run, ["C16."])
+    if not replay:
+        run.floor("messages", run.counters.get("messages", 0), 3000)
+        run.floor("origin_times", run.counters.get("origin_times", 0), 12000 if q else 600000)
+    run.counters["distinct_nontrivial"] = run.counters.get("messages", 0)
+    return run.finish(
+        "messages mixing NYCT-extended and plain entities x the 4 option combinations (exhaustive pools for the stale "
+        "rule, the descriptor rewrite, the M-train swap and tracks), plain messages for transparency, and NYCT trip ids "
+        "for origin times (quick: all of 0-2999 and 597000-599999 plus 12 around every 997th; thorough: all 600,000)",
+        ["stop-time instants equal to Unix time 0 are excluded (the wire format cannot tell them from absent)",
+         "token pools in harness/internal/rt/pools.go; TLC, Json module"], exhaustive=True)
+
+
 ZONES = "nil,UTC,America/New_York,Asia/Kolkata,fixed+0545,Pacific/Auckland,fixed-0330"
 
 PLANS = {
+    "C16": c16_plan,
     "C02": realtime_plan("C02", [("RT_fields.cfg", "RT_fields.cfg", ZONES, 1),
                                  (("RT_random.cfg", 1500), ("RT_random.cfg", 30000), ZONES, 1),
                                  ("RT_merge_quick.cfg", "RT_merge_thorough.cfg", "nil,America/New_York", 4)],
